@@ -25,6 +25,14 @@ Matches(n, b) == /\ ObsDistinct(n)
                     THEN {Tr.frames[n][j].p : j \in 1..Len(Tr.frames[n])} = DOMAIN b
                     ELSE ObsSet(n) = {<<q, 1000 * (b[q][1] + b[q][2]), 1000 * b[q][3]>> : q \in DOMAIN b}
 
+\* Tr.final_only = TRUE (absent = FALSE; history traces of driver c02.py): the call is one of several consecutive calls that
+\* hand the decoder the very same long-lived array object (edited in place between calls, retried after a rejection, after a
+\* call with the normalisation tolerance switched off) - nothing may come between them, so the beams after the earlier frames
+\* are not observed (Tr.frames[1..T-1] is padding).  The call is accepted iff SOME behaviour of CtcDecoder from Init on the
+\* matrix the array holds at that call ends in the returned bag (resp. is the rejection): the specification has no state
+\* across calls, whatever the objects went through before.
+FinalOnly == "final_only" \in DOMAIN Tr /\ Tr.final_only
+
 TNext == /\ UNCHANGED tid
          /\ \/ /\ Tr.outcome = "ok" /\ Frame
                /\ (t + 1 < T) => Matches(t + 1, beam')
@@ -40,6 +48,7 @@ TNext == /\ UNCHANGED tid
                        /\ \A o \in DOMAIN beam' : Total(beam', q) >= Total(beam', o)
                        /\ Tr.hret = Hist0 \o q
             \/ /\ Tr.outcome = "rejected" /\ Reject
+            \/ /\ FinalOnly /\ Tr.outcome = "ok" /\ t + 1 < T /\ Frame      \* unobserved intermediate beam
 
 TAccept == TKMark(tid, t + (IF phase = "run" THEN 0 ELSE 1), phase # "run")
 TPost == TKPost
